@@ -118,3 +118,6 @@ def witness_search(tier, seed):
             if str(sf2) != out:
                 return dict(input=dict(text=text[:300], strict=strict), detail="second save differs from the first")
     return None
+
+from pyvc.xcheck import MsdTextProbe   # noqa: E402
+THOROUGH_BOUNDED = [MsdTextProbe()]
